@@ -25,6 +25,10 @@ FN = 'pyglove.core.symbolic.functor'
 NAMES = ('a0', 'a1', 'a2')
 
 
+def _zb(z):
+  return z3.BoolVal(z) if isinstance(z, bool) else z
+
+
 def py_bind(n, has_varargs, m, kw_names):
   """('ok', {param: ('pos', i) | ('kw', name) | ('varargs', [i...])}) or ('TypeError',)."""
   bound = {}
@@ -140,4 +144,10 @@ class FunctorInit(Contract):
     # was the missing marker; with surplus positionals and no *args never.
     if m > n and not va:
       return False
-    return True
+    zs = []
+    for k in kws:
+      if k in NAMES[:min(m, n)]:
+        both = z3.And(_zb(self._supplied(interp, self._args[NAMES.index(k)])),
+                      _zb(self._supplied(interp, self._kwargs[k])))
+        zs.append(z3.Not(both))
+    return z3.And(*zs) if zs else True
